@@ -22,9 +22,9 @@ def run(res, tier, replay):
     n = 24 if tier == "quick" else 300
     lines = []; scns = []; meta = []
     for i in range(n):
-        bs = rng.choice([16, 17, 100, 4096, 65536])
+        bs = rng.choice([16, 17, 100]) if i % 6 == 2 else rng.choice([16, 17, 100, 4096, 65536])
         if i % 2 == 0:
-            oab, plain, lab = oablib.full_case(rng, big=(i % 8 == 0))
+            oab, plain, lab = oablib.full_case_padfit(rng, bs) if (i % 6 == 2 and bs <= 100) else oablib.full_case(rng, big=(i % 8 == 0))
             lines.append(oablib.model_line_full(oab, bs)); scns.append(oablib.scn_full(oab, bs)); meta.append((lab + " buf=%d" % bs, plain))
             for _ in range(2):
                 d = oablib.damage(rng, oab, 16); lines.append(oablib.model_line_full(d, bs)); scns.append(oablib.scn_full(d, bs)); meta.append((lab + " damaged", None))
